@@ -488,6 +488,15 @@ def c13(ctx):
                      "packet (incl. INIT and COOKIE-ECHO) injected before the genuine one; emission rule monitored on every packet of every run")
 
 
+@check("C08", ["C08_"])
+def c08(ctx):
+    files = directed_traces(ctx, "shutdown", 12 if ctx.quick else 16, {"VF_FULL": "0" if ctx.quick else "1"})
+    ctx.exhaustive = not ctx.quick
+    ctx.notes.append("shutdown: who calls (A, B, both) x queued messages x every <=1 (quick: + sampled pairs; thorough: all pairs) loss/duplication "
+                     "decision over (kind, sender, ordinal) of DATA/SACK/SHUTDOWN/SHUTDOWN-ACK/SHUTDOWN-COMPLETE")
+    ctx.validate(files)
+
+
 @check("C10", ["C10_"])
 def c10(ctx):
     files = transfer_family(ctx)
